@@ -411,6 +411,10 @@ class C12(P.Property):
                         viol.append(V("C12.3", "LOST_WRITE", f"index acknowledged to {edb_acks[0]} but the stored index answers for {hits}", site="probe-search"))
                     elif len(hits) != 1:
                         viol.append(V("C12.3", "WRONG_RESULT", f"state is ready but the stored index answers for {hits} (exactly one uploader expected)", site="probe-search"))
+                    else:
+                        self._actor_results_ok(w, actors, hits[0], viol)
+                elif st is not None and st < 2:
+                    self._actor_results_ok(w, actors, None, viol)
                 if cfg_acks:
                     try:
                         with open(run.sse_path(SID, "config.json")) as f:
@@ -435,6 +439,27 @@ class C12(P.Property):
                          config_acks=cfg_acks, index_acks=edb_acks)
         nopen = sum(1 for a in abstract if a[0] == "s_open")
         res.cover = {f"init{knobs['init_state']}:conns{min(nopen, 4)}:overlap{min(overlapped, 2)}": 1}
+
+    @staticmethod
+    def _actor_results_ok(w, actors, owner, viol):
+        """whatever a connection was answered comes from the one index the service has (write-once): an actor searches with its own
+        token, so it gets its own list if the stored index is its own and nothing otherwise -- never an answer from an index that was
+        refused, and no answer at all while there is no index"""
+        for n_, a_ in sorted(actors.items()):
+            if n_ == "D":
+                continue
+            for raw in a_.results:
+                try:
+                    got_ = list(fe.result_list(w["L"], w["cfgobj"], raw))
+                except Exception as e_:
+                    got_ = "undecodable:" + type(e_).__name__
+                mine = w["acts"][n_]["db"][b"w"]
+                okay = owner is not None and ((got_ == [] and owner != n_) or (got_ == mine and owner == n_))
+                if not okay:
+                    viol.append(V("C12.3", "WRONG_RESULT", f"{n_} was answered {got_ if isinstance(got_, str) else str(len(got_)) + ' identifiers'} with its own token; the "
+                                                            f"index the service holds is {owner + chr(39) + 's' if owner else 'none'}", site="actor-search"))
+                    return False
+        return True
 
     def enumerate(self, tier):
         """overlap sweep: A works through the protocol from every initial state while B (and optionally C) open at every position, wait, and
